@@ -282,6 +282,12 @@ func PatchLinker(goRoot, goVersion, cacheDir, tempDir string) (string, func(), e
 	}
 	verifhook.Event("link.build.begin")
 	verifhook.Point("link.beforeBuild")
+	// Remove whatever is left of an older linker first: "go build -o" does not
+	// rewrite a target whose embedded build ID looks up to date, such as a
+	// truncated binary, and refuses to overwrite a file that is not an object file.
+	if err := os.Remove(outputLinkPath); err != nil && !os.IsNotExist(err) {
+		return "", nil, err
+	}
 	if err := buildLinker(goRoot, workingDir, overlay, outputLinkPath); err != nil {
 		return "", nil, err
 	}
